@@ -637,7 +637,7 @@ class RawVoltageBackend(object):
             self.num_blocks = min(self.num_blocks, self.input_num_blocks)
             
         self.obs_length = self.num_blocks * self.time_per_block
-        self.total_obs_num_samples = int(self.obs_length / self.tbin) * self.num_branches
+        self.total_obs_num_samples = self.num_blocks * self.samples_per_block * self.num_branches
         
         if load_template:
             header_dict = self._header_add_from_template(header_dict)
